@@ -3,7 +3,7 @@ import os, sys, time, json, subprocess, hashlib, multiprocessing, traceback, re
 import z3
 from multiprocessing.pool import ThreadPool
 
-QUICK_CAP_S = 60
+QUICK_CAP_S = 150
 THOROUGH_CAP_S = 1200
 
 
@@ -138,10 +138,21 @@ class Check:
         simp = z3.simplify(formula)
         nontrivial = not (z3.is_true(simp) or z3.is_false(simp))
         if text is None:
-            text = str(simp)
-            if len(text) > 600:
-                text = text[:600] + ' ...'
+            if len(smt2) < 20000:
+                text = str(simp)
+                if len(text) > 600:
+                    text = text[:600] + ' ...'
+            else:
+                text = '(formula of %d bytes of SMT-LIB; not printed)' % len(smt2)
         self.obs.append(Ob(name, smt2, expect, group, meta, text, nontrivial))
+
+    def must_unsat_any(self, name, formulas, group='no-panic', cap=None):
+        """one query for a family of violation formulas (e.g. every panic site of one run): unsat iff none is satisfiable"""
+        fs = [f for f in formulas if not (isinstance(f, bool) and f is False)]
+        if not fs:
+            return
+        self.must_unsat('%s [%d sites]' % (name, len(fs)), z3.Or(*[z3.BoolVal(f) if isinstance(f, bool) else f for f in fs]), group=group, cap=cap,
+                        text='disjunction of %d site conditions (panic / bounds / unwinding)' % len(fs))
 
     def ground(self, name, ok, detail=''):
         self.grounds.append((name, bool(ok), detail))
